@@ -4,8 +4,11 @@
 package main
 
 import (
+	"encoding/json"
 	"flag"
 	"fmt"
+	"io"
+	"log"
 	"os"
 	"path"
 	"path/filepath"
@@ -49,7 +52,9 @@ type Case struct {
 	Outs  []string `json:"outs,omitempty"`
 	Deps  []string `json:"deps,omitempty"`
 	Bool  bool     `json:"bool"`
-	Err   string   `json:"err,omitempty"` // "", nofiles, listerr, badpat, other:<text>
+	Err   string   `json:"err,omitempty"` // "", nofiles, listerr, badpat, builderr, other:<text>
+	// build: every path under the case directory that differs after the build
+	Changed []string `json:"changed,omitempty"`
 	Crash string   `json:"crash,omitempty"`
 }
 
@@ -366,6 +371,60 @@ func genCases(seed uint64, n int, thorough bool) []Case {
 			add(Case{Stream: "fileset", Op: "fileset", P: p, Tree: tree, TreeID: tid, Rule: rule})
 		}
 	}
+	// exhaustive small scope: every consistent tree of up to 3 files from a
+	// pool whose names share prefixes x every select x every ignore.
+	corePool := []string{"d/x", "d2/x", "dx", "d/e/x", "d/y.txt", "a.txt"}
+	coreSel := []string{"*", "d/*", "d*", "d*/x", "**", "d/**", "*/x", "d/e/**", "d?/**"}
+	coreIgn := []string{"", "d/", "d", "d2/", "*.txt", "d*", "d/e/", "dx", "*/x", "/", "dx/"}
+	maxSub := 3
+	if thorough {
+		maxSub = 5
+	}
+	etid := 200000
+	for mask := 1; mask < 1<<len(corePool); mask++ {
+		var files []string
+		for b := 0; b < len(corePool); b++ {
+			if mask&(1<<b) != 0 {
+				files = append(files, corePool[b])
+			}
+		}
+		if len(files) > maxSub || !consistent(files) {
+			continue
+		}
+		etid++
+		tree := treeEntries(files)
+		for _, sel := range coreSel {
+			for _, ign := range coreIgn {
+				ig := []string{}
+				if ign != "" {
+					ig = []string{ign}
+				}
+				add(Case{Stream: "fileset-ex", Op: "fileset", P: "", Tree: tree, TreeID: etid,
+					Rule: &Rule{Name: "fs", Files: []string{}, Select: []string{sel}, Ignore: ig}})
+			}
+		}
+	}
+
+	// end-to-end builds of a workspace whose build file carries the rule.
+	nb := n / 8
+	if nb < 60 {
+		nb = 60
+	}
+	btid := 100000
+	for i := 0; i < nb; i++ {
+		files := []string{"pkg/BUILD.caco3", "pkg/a.txt", "pkg/dir/a.txt", "pkg/dir2/b.txt", "pkg/dirfile", "pkg/sub/x"}
+		if r.Bool() {
+			files = append(files, "other/y")
+		}
+		btid++
+		rule := &Rule{
+			Name:   []string{"fs", "../fs", "/x/fs", "sub/fs", "../../../esc", "/../../esc", "a/../../../esc2"}[r.Intn(7)],
+			Files:  pickSome(r, []string{"a.txt", "dir/a.txt", "../other/y", "/pkg/dirfile", "../../outside/secret.txt", "/../outside/secret.txt", "sub/x"}, 0, 2),
+			Select: pickSome(r, []string{"**", "dir/**", "dir*/**", "sub/**", "../../outside/**", "/../outside/**", "a.txt", "dir*/*.txt", "../other/**"}, 0, 2),
+			Ignore: pickSome(r, []string{"dir/", "dir2/", "sub/", "*.txt", "../", "/"}, 0, 2),
+		}
+		add(Case{Stream: "build", Op: "build", P: "pkg", Tree: treeEntries(files), TreeID: btid, Rule: rule})
+	}
 	return cs
 }
 
@@ -457,6 +516,8 @@ func runCase(c *Case, scratch string, built map[int]string) {
 		if err == nil && out != name+".fileset" {
 			c.Err = "other:out name " + out
 		}
+	case "build":
+		runBuild(c, scratch)
 	case "rule":
 		var rule interface{}
 		a, b := c.Fields[0], c.Fields[1]
@@ -478,6 +539,105 @@ func runCase(c *Case, scratch string, built map[int]string) {
 		c.Outs = outs
 		if err != nil {
 			c.Err = "other:" + err.Error()
+		}
+	}
+}
+
+type snapEnt struct {
+	Mode os.FileMode
+	Data string
+}
+
+func snapDir(root string) map[string]snapEnt {
+	m := map[string]snapEnt{}
+	filepath.Walk(root, func(p string, info os.FileInfo, err error) error {
+		if err != nil {
+			return nil
+		}
+		e := snapEnt{Mode: info.Mode()}
+		if info.Mode().IsRegular() {
+			b, _ := os.ReadFile(p)
+			e.Data = string(b)
+		}
+		rel, _ := filepath.Rel(root, p)
+		m[rel] = e
+		return nil
+	})
+	return m
+}
+
+func jsonxStrs(ss []string) string {
+	b, _ := json.Marshal(ss)
+	return string(b)
+}
+
+// runBuild builds one file_set rule through the real Builder in a fresh
+// workspace <scratch>/bN/ws and reports every path under <scratch>/bN that
+// changed; only ws/out may.
+func runBuild(c *Case, scratch string) {
+	base := filepath.Join(scratch, fmt.Sprintf("b%d", c.TreeID))
+	os.RemoveAll(base)
+	defer os.RemoveAll(base)
+	ws := filepath.Join(base, "ws")
+	if err := buildTree(ws, c.Tree); err != nil {
+		c.Err = "other:setup: " + err.Error()
+		return
+	}
+	os.MkdirAll(filepath.Join(base, "outside"), 0o755)
+	os.WriteFile(filepath.Join(base, "outside", "secret.txt"), []byte("secret"), 0o644)
+	os.WriteFile(filepath.Join(ws, "WORKSPACE.caco3"), []byte("repo_map {\n  Src: {\"pkg\": \"\"},\n}\n"), 0o644)
+	nm, _ := json.Marshal(c.Rule.Name)
+	bf := fmt.Sprintf("file_set {\n  Name: %s,\n  Files: %s,\n  Select: %s,\n  Ignore: %s,\n}\n",
+		nm, jsonxStrs(c.Rule.Files), jsonxStrs(c.Rule.Select), jsonxStrs(c.Rule.Ignore))
+	os.WriteFile(filepath.Join(ws, "src", "pkg", "BUILD.caco3"), []byte(bf), 0o644)
+
+	before := snapDir(base)
+	log.SetOutput(io.Discard)
+	b, err := caco3.NewBuilder(ws, &caco3.Config{Root: ws})
+	if err != nil {
+		c.Err = "other:builder: " + err.Error()
+		return
+	}
+	if _, errs := b.ReadWorkspace(); errs != nil {
+		c.Err = "other:workspace: " + errs[0].Err.Error()
+		return
+	}
+	name := caco3.VerifMakeRelPath(c.P, c.Rule.Name)
+	c.Out = name
+	errs := b.Build([]string{name})
+	if errs != nil {
+		cls := projErr(errs[0].Err)
+		if strings.HasPrefix(cls, "other:") {
+			cls = "other"
+		}
+		c.Err = "builderr:" + cls
+	}
+	after := snapDir(base)
+	for p, a := range after {
+		if bb, ok := before[p]; !ok || bb != a {
+			c.Changed = append(c.Changed, p)
+		}
+	}
+	for p := range before {
+		if _, ok := after[p]; !ok {
+			c.Changed = append(c.Changed, p)
+		}
+	}
+	sort.Strings(c.Changed)
+	if errs == nil {
+		var list []struct{ Name string }
+		bs, err := os.ReadFile(filepath.Join(ws, "out", filepath.FromSlash(name)+".fileset"))
+		if err != nil {
+			c.Err = "other:no output: " + err.Error()
+			return
+		}
+		if err := json.Unmarshal(bs, &list); err != nil {
+			c.Err = "other:output: " + err.Error()
+			return
+		}
+		c.Outs = []string{}
+		for _, e := range list {
+			c.Outs = append(c.Outs, e.Name)
 		}
 	}
 }
